@@ -6,6 +6,7 @@ Subject of the Gen theorems: the functions REGENERATED from /repo's source in Ge
 import MinizProof.Gen.All
 import MinizProof.Lemmas.Finite
 import MinizProof.Props.C02
+import MinizProof.Lemmas.VecLoops
 set_option maxRecDepth 1000000
 open Fin'
 
@@ -53,5 +54,18 @@ theorem engines_resume_exactly :
 -- non-vacuity: level 200 really is a u8 level above 10 and maps to level 10's flags
 example : flagsFor 200 1 = flagsFor 10 1 := level_clamp 200 1 (by decide) (by decide) (by decide)
 example : flagsFor 10 1 = 0x1000 + 1500 := by decide +kernel
+
+/-! ### The grow-and-retry loop of `compress_to_vec` (`Model.Vec.compressToVec`, VECD correspondence) -/
+/-- For EVERY behaviour of the inner `compress` that keeps its contract (status Okay or Done — which
+    C02 `staging_protocol` shows is all a Finish-only schedule can get — and never more input reported
+    consumed than is left), the loop of `compress_to_vec_inner` never reaches its
+    `panic!("Bug! Unexpectedly failed to compress!")` arm, for every input length and however often the
+    output vector has to double. -/
+theorem compress_to_vec_never_panics (inLen : Nat) (script : List Model.Vec.Resp)
+    (h : Model.Vec.Respects inLen script) : ∀ cs, Model.Vec.compressToVec inLen script ≠ .panic cs :=
+  Model.Vec.compressToVec_never_panics inLen script h
+
+example : Model.Vec.compressToVec 100 [⟨0, 100, 50⟩, ⟨1, 0, 7⟩] = .ok 57 [(100, 50, 0), (0, 100, 50)] := by decide
+example : Model.Vec.Respects 100 [⟨0, 100, 50⟩, ⟨1, 0, 7⟩] := by simp [Model.Vec.Respects, Model.Vec.dOkay, Model.Vec.dDone]
 
 end C01
